@@ -327,6 +327,15 @@ def r15_7(ctx: Ctx) -> None:
                           "stream and in the folder's size, later writes and close() succeed and the archive is silently corrupt (members after the failure cannot be extracted). "
                           + ("No field that makes _write_flush refuse is set in the handler." if not sets else "The handler does not look at what the compressor consumed."),
                           construct=f"{name} mid-read failure")
+                # the handler compares with a value taken BEFORE the call: every local it reads is defined on the way into the try
+                tn = next((q.node_for(f, a_) for a_ in arch if any(a_ in list(ast.walk(st)) for st in tr.body)), None)
+                for nm in sorted({x.id for s_ in sets for x in ast.walk(s_.value) if isinstance(x, ast.Name) and x.id not in ("self",) and x.id not in f.params}):
+                    defs = [n for n in walk(f.node) if isinstance(n, ast.Assign) and any(isinstance(t, ast.Name) and t.id == nm for t in n.targets)]
+                    cfg_ = cfg_of(f.node)
+                    ok = bool(defs) and tn is not None and any(cfg_.dominates(q.node_for(f, d), tn) for d in defs)
+                    ctx.check(ok, "R15.7", f, h, f"{name}: `{nm}`, which the handler compares with, is taken before the call",
+                              f"the handler around Worker.archive in {name} reads `{nm}`, which is not assigned on the way into the try: when a source fails the handler itself dies with "
+                              "NameError, which replaces the source's error and skips the rest of the bookkeeping", construct=f"{name} handler reads undefined {nm}")
 
 
 def r15_8(ctx: Ctx) -> None:
@@ -388,6 +397,27 @@ def _restoring_write(wf, x: ast.Call) -> bool:
     swaps = [n for n in walk(wf.node) if isinstance(n, ast.Assign) and norm(n.targets[0]) == "self.header" and norm(n.value) == "self._header_at_open"]
     swapped = any(cfg.dominates(q.node_for(wf, n), q.node_for(wf, x)) for n in swaps)
     return append and not absent and swapped
+
+
+def r15_14(ctx: Ctx) -> None:
+    """'source missing: the exception reaches the caller': writeall() of a path that does not exist raises.  The tree walk answers a path that
+    is neither link, file nor directory by returning quietly (that is how it passes over sockets and looped links), so the public function
+    has to refuse it first: a Raise under `not path.exists()` that the walk cannot be reached around."""
+    f = shared.szf(ctx, "writeall")
+    cfg = cfg_of(f.node)
+    walks = [c for c in q.calls(f) if attr_tail(c) == "_writeall"]
+    ctx.floor("R15.14", len(walks), 1, "walk call in writeall")
+    for c in walks:
+        def says_exists(cd: ast.AST) -> bool:
+            if isinstance(cd, ast.Call):
+                return attr_tail(cd) in ("exists", "lexists", "is_dir", "is_file", "is_symlink")
+            return isinstance(cd, ast.BoolOp) and isinstance(cd.op, ast.Or) and all(says_exists(v) for v in cd.values)
+        exists_known = any(pol and says_exists(cd) for cd, pol in q.facts_at(f, c))
+        refusing = [t for t in cfg.nodes if t.kind == "test" and any(isinstance(x, ast.Call) and attr_tail(x) in ("exists", "lexists") for x in ast.walk(t.ast)) and cfg.dominates(t, q.node_for(f, c))
+                    and any(q.branch_always_raises(cfg, e) for e in t.succ if e.kind in ("true", "false"))]
+        ctx.check(exists_known or bool(refusing), "R15.14", f, c, "writeall refuses a path that does not exist",
+                  "writeall() hands a path that does not exist to the tree walk, which returns quietly for anything that is neither link, file nor directory: the call succeeds, nothing "
+                  "is archived and the caller is not told that the source is missing", construct="writeall of a missing path")
 
 
 def r15_13(ctx: Ctx) -> None:
@@ -508,6 +538,7 @@ def r15_12(ctx: Ctx) -> None:
 
 
 def run(ctx: Ctx) -> None:
+    r15_14(ctx)
     r15_13(ctx)
     r15_12(ctx)
     r15_11(ctx)
